@@ -224,6 +224,53 @@ fn exec_chain(ctx: &mut Ctx, ev: &Ev) {
     }
 }
 
+/// Esops over all 32 variables (cube lists may then contain the empty cube `Cube::zero()`, the cube without
+/// literals, and cubes with 32 literals): value, `^`, `!`, is_zero / is_one judged on sampled assignments —
+/// is_zero (is_one) is refuted by one assignment on which the parity of the cubes is true (false).
+fn exec_wide(ctx: &mut Ctx, ev: &Ev) {
+    let (la, lb) = lists_of(ev);
+    ctx.event("esop-wide|n=32", ev, true);
+    let mut rng = Rng::new(ev.digest());
+    // assignments: corners, around each cube, random
+    let mut asg: Vec<u64> = vec![0, u32::MAX as u64, 0x5555_5555, 0xaaaa_aaaa, 1, 0x8000_0000];
+    for c in la.iter().chain(lb.iter()) {
+        asg.push(c.pos as u64);
+        asg.push((c.pos | !c.neg) as u64 & 0xffff_ffff);
+        asg.push((c.pos as u64) ^ (1 << rng.below(32)));
+    }
+    for _ in 0..40 {
+        asg.push(rng.next_u64() & 0xffff_ffff);
+    }
+    let par = |l: &[CubeM], m: u64| l.iter().filter(|c| !c.contradictory() && c.sat(m)).count() % 2 == 1;
+    let r = guard(|| {
+        let mk = |l: &[CubeM]| Esop::from_cubes(32, l.iter().map(|c| if c.contradictory() { Cube::zero() } else { c.real() }).collect::<Vec<Cube>>());
+        let a = mk(&la);
+        let b = mk(&lb);
+        let x = &a ^ &b;
+        let na = !&a;
+        let rows: Vec<(bool, bool, bool)> = asg.iter().map(|m| (a.value(*m as usize), x.value(*m as usize), na.value(*m as usize))).collect();
+        (rows, [a.is_zero(), x.is_zero(), na.is_zero()], [a.is_one(), x.is_one(), na.is_one()], a.num_vars(), x.num_vars(), na.num_vars())
+    });
+    match r {
+        Outcome::Returned((rows, zeros, ones, nv, nx, nn)) => {
+            ctx.check("esop-value-parity", nv == 32 && nx == 32 && nn == 32, ev, "wide-arity", || "a 32-variable Esop (or its ^ / !) reports another number of variables".into());
+            let want: Vec<(bool, bool, bool)> = asg.iter().map(|m| (par(&la, *m), par(&la, *m) != par(&lb, *m), !par(&la, *m))).collect();
+            ctx.checked("esop-value-parity", rows.len() as u64);
+            let bad = rows.iter().zip(want.iter()).position(|(g, w)| g != w);
+            ctx.check("esop-value-parity", bad.is_none(), ev, "wide-value", || {
+                let i = bad.unwrap();
+                format!("32-variable Esop {:?} ^ {:?}: (a, a^b, !a) evaluate to {:?} on assignment {:#x}, expected {:?}", la, lb, rows[i], asg[i], want[i])
+            });
+            for (k, name) in ["a", "a^b", "!a"].iter().enumerate() {
+                let vals: Vec<bool> = want.iter().map(|w| [w.0, w.1, w.2][k]).collect();
+                ctx.check("esop-is-zero-sound", !zeros[k] || vals.iter().all(|v| !*v), ev, &format!("wide-is_zero-{}", name), || format!("is_zero holds for {} of the 32-variable Esop {:?} (^ {:?}) which is true on some assignment", name, la, lb));
+                ctx.check("esop-is-one-sound", !ones[k] || vals.iter().all(|v| *v), ev, &format!("wide-is_one-{}", name), || format!("is_one holds for {} of the 32-variable Esop {:?} (^ {:?}) which is false on some assignment", name, la, lb));
+            }
+        }
+        Outcome::Panicked(msg) => ctx.violate("no-panic", ev, "esop-wide", format!("operation on 32-variable Esops panicked: {}", msg)),
+    }
+}
+
 fn exec_ctor(ctx: &mut Ctx, ev: &Ev) {
     // values built by the named constructors; their meaning is read back through cubes()
     let n = ev.n;
@@ -269,6 +316,7 @@ fn exec(ctx: &mut Ctx, ev: &Ev) {
         "pprm" => exec_pprm(ctx, ev),
         "esop-ops" => exec_ops(ctx, ev),
         "esop-chain" => exec_chain(ctx, ev),
+        "esop-wide" => exec_wide(ctx, ev),
         other => panic!("harness: unknown op {}", other),
     }
 }
@@ -390,6 +438,46 @@ fn main() {
                     }
                     exec_ops(ctx, &ops_ev(nn, &a, &b));
                 }
+                // Esops over all 32 variables: short lists of constant cubes (empty cube, cube without literals),
+                // full-width cubes, sparse and dense cubes
+                for _ in 0..if thorough { 20000 } else { 300 } {
+                    let mk = |rng: &mut Rng| -> Vec<CubeM> {
+                        (0..rng.below(4))
+                            .map(|_| match rng.below(6) {
+                                0 => CubeM::new(1 << rng.below(32), 1 << rng.below(32)).and(&CubeM::new(1, 1)), // contradictory
+                                1 => CubeM::new(0, 0),
+                                2 => {
+                                    let x = rng.next_u64() as u32;
+                                    CubeM::new(x, !x)
+                                }
+                                3 => {
+                                    let x = rng.next_u64() as u32;
+                                    let y = rng.next_u64() as u32;
+                                    CubeM::new(x & y, !x & y)
+                                }
+                                _ => {
+                                    let mut c = CubeM::new(0, 0);
+                                    for _ in 0..rng.below(4) {
+                                        let v = rng.below(32);
+                                        if c.support() & (1 << v) == 0 {
+                                            if rng.bool() {
+                                                c.pos |= 1 << v;
+                                            } else {
+                                                c.neg |= 1 << v;
+                                            }
+                                        }
+                                    }
+                                    c
+                                }
+                            })
+                            .collect()
+                    };
+                    let a = mk(&mut rng);
+                    let b = mk(&mut rng);
+                    let mut ev = ops_ev(32, &a, &b);
+                    ev.op = "esop-wide".into();
+                    exec_wide(ctx, &ev);
+                }
                 // long lists of dense cubes (most variables present, mostly positive), in the order of `Cube`'s own
                 // `Ord` (sorted input is what conversions from other forms produce), reversed, or shuffled
                 for r in 0..if thorough { 600 } else { 24 } {
@@ -489,6 +577,7 @@ fn main() {
         required.push(format!("pprm|n={}", n));
         required.push(format!("esop-ops|n={}", n));
         if n == 0 {
+            required.push("esop-wide|n=32".into());
             for k in ["sorted", "reverse-sorted", "unsorted"] {
                 required.push(format!("esop-ops-long-dense|{}", k));
             }
